@@ -47,6 +47,7 @@ EXTRA = {   # additional checks expected to notice a mutant
     'C20-fanout-transact-depth-shared': ['C06'],
     'C13-reset-reload-first-shard-only': ['C18'],
     'C17-fanout-check-swallows-timeout': ['C14'],
+    'C19-store-isinstance-value-types': ['C01'],
     'C06-remove-before-commit': ['C07', 'C12'],
     'C07-timeout-leaves-txn': ['C06', 'C14'],
     'C08-removes-survive-rollback': ['C06'],
